@@ -50,8 +50,26 @@ let rec pat_of = function
   | L (A "pt" :: ps) -> PTup (List.map pat_of ps)
   | L (A "pr" :: fs) -> PRec (List.map (function L [f; p] -> (idn f, pat_of p) | _ -> failwith "pr") fs)
   | _ -> failwith "pat"
+let rec shape_of = function
+  | A "N" -> SNum
+  | L (A "st" :: shs) -> STup (List.map shape_of shs)
+  | L (A "sr" :: fs) -> SRec (List.map (function L [f; sh] -> (idn f, shape_of sh) | _ -> failwith "sr") fs)
+  | L (A "ss" :: nm :: cs) -> SSum (idn nm, List.map (function A "-" -> None | sh -> Some (shape_of sh)) cs)
+  | _ -> failwith "shape"
+let rec mpat_of = function
+  | A "mw" -> MWild
+  | L [A "ml"; z] -> MLit (z_of_int (num z))
+  | L [A "mc"; t] -> MCon (nat_of_int (num t), None)
+  | L [A "mc"; t; p] -> MCon (nat_of_int (num t), Some (pat_of p))
+  | L (A "mt" :: ms) -> MTup (List.map mpat_of ms)
+  | _ -> failwith "mpat"
 let rec expr_of = function
   | A "now" -> XNow | A "sr" -> XSr | A "self" -> XSelf
+  | L [A "selfs"; sh] -> XSelfS (shape_of sh)
+  | L [A "con"; tn; t] -> XCon (idn tn, nat_of_int (num t), None)
+  | L [A "con"; tn; t; a] -> XCon (idn tn, nat_of_int (num t), Some (expr_of a))
+  | L (A "match" :: sc :: arms) ->
+      XMatch (expr_of sc, List.map (function L [m; e] -> (mpat_of m, expr_of e) | _ -> failwith "arm") arms)
   | L [A "lit"; v] -> XLit (z_of_int (num v))
   | L [A "var"; v] -> XVar (idn v)
   | L [A "bin"; A op; a; b] -> XBin (binop_of op, expr_of a, expr_of b)
